@@ -14,6 +14,10 @@ from svgelements import SVG, Shape, Path, Move, Close, Point
 
 R = random.Random(int(sys.argv[1]) if len(sys.argv) > 1 else 0)
 N = int(sys.argv[2]) if len(sys.argv) > 2 else 300
+
+
+def seed(x):
+    R.seed(x)
 NS = "http://www.w3.org/2000/svg"
 XL = "http://www.w3.org/1999/xlink"
 
@@ -432,4 +436,5 @@ def main():
         print(v, k)
 
 
-main()
+if __name__ == "__main__":
+    main()
